@@ -177,6 +177,14 @@ class XF:
         self.lo, self.hi = lo, hi
         self.err = F(err)      # the double differs from num/den by at most err (accumulated roundings kept un-materialised)
         self.pend = pend       # the double is exactly RN(num/den): one pending rounding (err == 0)
+        self.nn = False        # the double itself is known to be >= 0 (rounding is monotone and RN(0) == 0), whatever err says
+
+    def known_nonneg(self):
+        return self.nn or (self.lo is not None and self.lo >= 0)
+
+    def mark_nn(self, flag=True):
+        self.nn = bool(flag)
+        return self
 
     def slack(self):
         """bound on |double - num/den|"""
@@ -188,7 +196,7 @@ class XF:
         """same value with a pending rounding turned into an error bound"""
         if self.pend:
             e = half_ulp(self)
-            return XF(self.num, self.den, None if self.lo is None else self.lo - e, None if self.hi is None else self.hi + e, e, False)
+            return XF(self.num, self.den, None if self.lo is None else self.lo - e, None if self.hi is None else self.hi + e, e, False).mark_nn(self.known_nonneg())
         return self
 
     # --- construction ---------------------------------------------------------------------------
@@ -242,7 +250,7 @@ class XF:
         lo = hi = None
         if None not in (self.lo, self.hi, o.lo, o.hi):
             lo, hi = (self.lo + o.lo, self.hi + o.hi) if sign > 0 else (self.lo - o.hi, self.hi - o.lo)
-        return XF(num, den, lo, hi, self.err + o.err)
+        return XF(num, den, lo, hi, self.err + o.err).mark_nn(sign > 0 and self.known_nonneg() and o.known_nonneg())
 
     def _scale(self, q):
         q = F(q)
@@ -256,7 +264,7 @@ class XF:
         lo = hi = None
         if None not in (self.lo, self.hi):
             lo, hi = sorted((self.lo * q, self.hi * q))
-        return XF(num, den, lo, hi, self.err * abs(q))
+        return XF(num, den, lo, hi, self.err * abs(q)).mark_nn(q > 0 and self.known_nonneg())
 
     # --- float arithmetic (rounded) ------------------------------------------------------------------
     def __add__(s, o):
@@ -312,7 +320,7 @@ class XF:
         return s
 
     def __abs__(s):
-        if s.lo is not None and s.lo >= 0:
+        if s.known_nonneg():
             return s
         if s.hi is not None and s.hi <= 0:
             return -s
@@ -325,6 +333,12 @@ class XF:
             o = XF.rat(o)
         except TypeError:
             return NotImplemented
+        if s.known_nonneg() and s.slack() > 0 and o.is_const() and o.slack() == 0 and o.const_value() == 0:
+            w = z3.simplify(f(z3.IntVal(0), z3.IntVal(0))), z3.simplify(f(z3.IntVal(1), z3.IntVal(0)))
+            if z3.is_true(w[0]) and z3.is_true(w[1]):            # x >= 0
+                return True
+            if z3.is_false(w[0]) and z3.is_false(w[1]):          # x < 0
+                return False
         if s.pend and o.is_const() and not o.pend and o.err == 0:
             return sb(_cmp_pending_const(s, o.const_value(), f))
         if o.pend and s.is_const() and not s.pend and s.err == 0:
@@ -369,7 +383,7 @@ class XF:
             c = int(c)
         if not (isinstance(c, int) and not isinstance(c, bool) and c > 0):
             raise PathCut('unsupported: divmod by %r' % (c,))
-        if not (s.lo is not None and s.lo >= 0):
+        if not s.known_nonneg():
             if not bool(s >= 0):
                 raise PathCut('unsupported: divmod of a negative value')
         if s.hi is None or s.hi / c >= 2 ** 53:
@@ -379,8 +393,10 @@ class XF:
         k = fresh_int('q')
         assume(k >= 0, s.num - c * s.den * k >= -Ei, s.num - c * s.den * k < c * s.den + Ei)
         qlo, qhi = (F(int(max(s.lo, 0) // c)) if s.lo is not None else F(0)), F(int(s.hi // c))
-        r = XF(s.num - c * s.den * k, s.den, F(0) - s.err, F(c) + s.err, s.err)
-        return XF(k, 1, qlo, qhi), r
+        rlo = max(F(0), (s.lo if s.lo is not None else F(0)) - c * qhi) - s.err
+        rhi = min(F(c), s.hi - c * qlo) + s.err
+        r = XF(s.num - c * s.den * k, s.den, rlo, rhi, s.err).mark_nn()
+        return XF(k, 1, qlo, qhi).mark_nn(), r
 
     def __rdivmod__(s, o):
         raise PathCut('unsupported: divmod by a symbolic value')
@@ -449,6 +465,25 @@ def rnint(x, T):
     return R
 
 
+def materialise(x):
+    """turn a pending rounding into an explicit double (forks on the result binade; only inside an exploration)"""
+    if not isinstance(x, XF) or not x.pend:
+        return x
+    c = _ctx()
+    y = XF(x.num, x.den, x.lo, x.hi)
+    if x.lo is not None and x.lo > 0 or (x.lo is not None and x.lo >= 0 and bool(sb(x.num > 0))):
+        return _rn_pos(XF(y.num, y.den, y.lo if y.lo > 0 else None, y.hi), c)
+    if x.hi is not None and x.hi <= 0:
+        if bool(sb(x.num < 0)):
+            return -_rn_pos(XF(-y.num, y.den, -y.hi if y.hi < 0 else None, -y.lo), c)
+        return XF(0, 1, F(0), F(0))
+    if bool(sb(x.num == 0)):
+        return XF(0, 1, F(0), F(0))
+    if bool(sb(x.num > 0)):
+        return _rn_pos(XF(y.num, y.den, None, y.hi), c)
+    return -_rn_pos(XF(-y.num, y.den, None, -y.lo), c)
+
+
 def half_ulp(x):
     """half an ulp of the largest magnitude in x's bounds"""
     m = max(abs(x.lo), abs(x.hi))
@@ -468,6 +503,7 @@ def rn(x):
         return XF(fq.numerator, fq.denominator, fq, fq)
     if x.lo is None or x.hi is None:
         raise PathCut('unsupported: rounding a value without bounds')
+    nn = x.known_nonneg()
     x = x.settled()
     if x.err == 0:
         # exactly representable already? dyadic denominator and small numerator
@@ -479,9 +515,9 @@ def rn(x):
             return _rn_pos(x, c)
         if x.hi < 0 and log2floor(-x.lo) - log2floor(-x.hi) <= 1:
             return -_rn_pos(XF(-x.num, x.den, -x.hi, -x.lo), c)
-        return XF(x.num, x.den, x.lo, x.hi, 0, True)
+        return XF(x.num, x.den, x.lo, x.hi, 0, True).mark_nn(nn)
     e = half_ulp(XF(x.num, x.den, x.lo - x.err, x.hi + x.err))
-    return XF(x.num, x.den, x.lo - e, x.hi + e, x.err + e)
+    return XF(x.num, x.den, x.lo - e, x.hi + e, x.err + e).mark_nn(nn)
 
 
 def rounding_interval(cq):
@@ -563,6 +599,9 @@ def _below_ok(x, k, c):
 
 
 # --- decimal text ------------------------------------------------------------------------------------------
+PARSED = []      # (numerator term, power of ten) of every decimal literal turned into a double on the current path
+
+
 class DText:
     """decimal text: optional sign flag + segments ('lit', str) | ('dig', z3 Int value, width) | ('int', z3 Int value >= 0)"""
 
@@ -585,18 +624,38 @@ class DText:
                 x = XF(x.num, x.den, F(0), x.hi)
         T = 10 ** ndec
         R = rnint(x, T)
-        ip, fr = fresh_int('ip'), fresh_int('fr')
-        assume(R == ip * T + fr, fr >= 0, fr < T, ip >= 0)
+        c0 = _ctx()
+        memo0 = getattr(c0, 'fm_memo', None)
+        if memo0 is None:
+            memo0 = c0.fm_memo = {}
+        k0 = ('ipfr', R.get_id(), T)
+        if k0 not in memo0:
+            ip, fr = fresh_int('ip'), fresh_int('fr')
+            assume(R == ip * T + fr, fr >= 0, fr < T, ip >= 0)
+            memo0[k0] = (ip, fr)
+        ip, fr = memo0[k0]
         segs = []
         if zero_pad and width:
             w = width - ndec - 1
             if x.hi is None or x.hi + 1 >= 10 ** w:
                 raise PathCut('unsupported: zero-padded field may overflow its width')
-            segs.append(('dig', ip, w))
+            segs.append(('dig', ip, w, None if x.lo is None else max(0, math.floor(x.lo) - 1), None if x.hi is None else math.floor(x.hi) + 1))
         else:
             segs.append(('int', ip, None if x.hi is None else math.floor(x.hi) + 1))
         if ndec:
-            segs += [('lit', '.'), ('dig', fr, ndec)]
+            # the fractional part as individual decimal digits: slices and int()/float() of slices are then linear combinations of the
+            # same digit variables (no new div/mod constraints per slice)
+            c = _ctx()
+            memo = getattr(c, 'fm_memo', None)
+            if memo is None:
+                memo = c.fm_memo = {}
+            key = ('digits', fr.get_id(), ndec)
+            if key not in memo:
+                ds = [fresh_int('d') for _ in range(ndec)]
+                assume(*[z3.And(d >= 0, d <= 9) for d in ds])
+                assume(fr == sum(d * 10 ** (ndec - 1 - i) for i, d in enumerate(ds)))
+                memo[key] = ds
+            segs += [('lit', '.'), ('digs', list(memo[key]))]
         t = DText(segs, neg)
         t.ipart_hi = None if x.hi is None else math.floor(x.hi) + 1
         return t
@@ -613,8 +672,8 @@ class DText:
             if i.hi is None or i.hi >= 10 ** width:
                 if not _prove(i.z < 10 ** width):
                     raise PathCut('unsupported: padded integer may overflow its width')
-            return DText([('dig', i.z, width)])
-        return DText([('int', i.z, i.hi)])
+            return DText([('dig', i.z, width, i.lo, i.hi)])
+        return DText([('int', i.z, i.hi, i.lo)])
 
     # str protocol ------------------------------------------------------------------------------------------
     def split(self, sep=None):
@@ -625,10 +684,24 @@ class DText:
                 return [DText(self.segs[:j], self.neg), DText(self.segs[j + 1:])]
         return [self]
 
+    def _digit_list(self):
+        """list of single-digit terms if the text consists of digit variables / literal digits only, else None"""
+        out = []
+        for p in self.segs:
+            if p[0] == 'digs':
+                out += list(p[1])
+            elif p[0] == 'lit' and p[1].isdigit():
+                out += [z3.IntVal(int(ch)) for ch in p[1]]
+            else:
+                return None
+        return out
+
     def _digits(self):
         out = []
         for p in self.segs:
-            if p[0] == 'dig':
+            if p[0] == 'digs':
+                out += [(d, 1) for d in p[1]]
+            elif p[0] == 'dig':
                 out.append((p[1], p[2]))
             elif p[0] == 'lit' and p[1].isdigit():
                 out.append((z3.IntVal(int(p[1])), len(p[1])))
@@ -640,6 +713,12 @@ class DText:
         return sum(w for _, w in self._digits())
 
     def __getitem__(self, ix):
+        dl = self._digit_list()
+        if dl is not None:
+            sub = dl[ix] if isinstance(ix, slice) else [dl[ix]]
+            if not sub:
+                raise PathCut('unsupported: empty slice of symbolic text')
+            return DText([('digs', sub)])
         ds = self._digits()
         W = sum(w for _, w in ds)
         val = z3.IntVal(0)
@@ -679,7 +758,6 @@ class DText:
             raise PathCut('unsupported: replace(%r, %r)' % (a, b))
         t = DText([p for p in self.segs if p != ('lit', '.')], self.neg)
         t.dot_removed_after = sum(1 for p in self.segs[:self.segs.index(('lit', '.'))]) if ('lit', '.') in self.segs else None
-        t.frac_digits_removed = sum(p[2] for p in self.segs[self.segs.index(('lit', '.')) + 1:] if p[0] == 'dig') if ('lit', '.') in self.segs else 0
         t.stripped = getattr(self, 'stripped', False)
         return t
 
@@ -687,20 +765,29 @@ class DText:
         if any(p == ('lit', '.') for p in self.segs):
             raise ValueError('invalid literal for int()')
         val = z3.IntVal(0)
-        hi = 0
+        lo, hi = 0, 0
         for p in self.segs:
-            if p[0] == 'dig':
-                val, hi = val * 10 ** p[2] + p[1], hi * 10 ** p[2] + 10 ** p[2] - 1
+            if p[0] == 'digs':
+                for d in p[1]:
+                    val = val * 10 + d
+                    lo, hi = (None if lo is None else lo * 10), (None if hi is None else hi * 10 + 9)
+            elif p[0] == 'dig':
+                w = p[2]
+                plo = p[3] if len(p) > 3 and p[3] is not None else 0
+                phi = p[4] if len(p) > 4 and p[4] is not None else 10 ** w - 1
+                val = val * 10 ** w + p[1]
+                lo, hi = (None if lo is None else lo * 10 ** w + plo), (None if hi is None else hi * 10 ** w + phi)
             elif p[0] == 'int':
                 if hi != 0:
                     raise PathCut('unsupported: variable-width integer inside text')
-                val, hi = p[1], p[2]
+                val, hi, lo = p[1], p[2], (p[3] if len(p) > 3 and p[3] is not None else 0)
             elif p[0] == 'lit' and p[1].isdigit():
-                val = val * 10 ** len(p[1]) + int(p[1])
-                hi = None if hi is None else hi * 10 ** len(p[1]) + int(p[1])
+                w = len(p[1])
+                val = val * 10 ** w + int(p[1])
+                lo, hi = (None if lo is None else lo * 10 ** w + int(p[1])), (None if hi is None else hi * 10 ** w + int(p[1]))
             else:
                 raise PathCut('unsupported: int() of %r' % (p,))
-        r = XI(val, 0, hi)
+        r = XI(val, lo if lo is not None else 0, hi)
         if self.neg is True:
             return -r
         if self.neg is not False:
@@ -710,26 +797,30 @@ class DText:
     def to_float(self):
         """value of the decimal literal, correctly rounded (what float(str) does)"""
         segs = self.segs
-        # digits after the (single) decimal point have fixed total width F
         if ('lit', '.') in segs:
             j = segs.index(('lit', '.'))
             ipart, fpart = segs[:j], segs[j + 1:]
         else:
             ipart, fpart = segs, []
+        ft = DText(fpart).to_int() if fpart else XI(0)
         fw = 0
-        fval = z3.IntVal(0)
         for p in fpart:
-            if p[0] == 'dig':
-                fval, fw = fval * 10 ** p[2] + p[1], fw + p[2]
-            elif p[0] == 'lit' and p[1].isdigit():
-                fval, fw = fval * 10 ** len(p[1]) + int(p[1]), fw + len(p[1])
-            else:
-                raise PathCut('unsupported: float() of text with %r after the point' % (p,))
+            fw += len(p[1]) if p[0] in ('digs', 'lit') else p[2]
         it = DText(ipart).to_int() if ipart else XI(0)
-        num = it.z * 10 ** fw + fval
-        hi = None if it.hi is None else F(it.hi + 1)
-        x = XF(num, 10 ** fw, F(0), hi)
-        r = rn(x)
+        num = it.z * 10 ** fw + ft.z
+        T = 10 ** fw
+        lo = F(it.lo if it.lo is not None else 0) + F(ft.lo if ft.lo is not None else 0, T)
+        hi = None if it.hi is None else F(it.hi) + (F(ft.hi, T) if ft.hi is not None else F(1))
+        fs = []
+        for q in fpart:
+            if q[0] == 'digs':
+                fs += [(d, 1) for d in q[1]]
+            elif q[0] == 'dig':
+                fs.append((q[1], q[2]))
+            elif q[0] == 'lit':
+                fs += [(z3.IntVal(int(ch)), 1) for ch in q[1]]
+        PARSED.append((num, T, it.z, fs))
+        r = rn(XF(num, T, lo, hi))
         if self.neg is True:
             return -r
         if self.neg is not False:
